@@ -198,6 +198,9 @@ func VerifCountMoves(pos *Position) int         { return pos.countMoves() }
 func VerifCountTacticalMoves(pos *Position) int { return pos.countTacticalMoves() }
 func VerifInCheck(pos *Position) bool           { return pos.isCurrentKingUnderCheck() }
 
+// Raw content of a 0x88 board cell (0 = empty).
+func VerifPieceAt(pos *Position, sq byte) byte { return byte(pos.board[sq&0x7f]) }
+
 // Is square sq attacked by the pieces of the given colour (as isUnderCheck sees it)?
 func VerifAttacked(pos *Position, sq byte, byWhite bool) bool {
 	if byWhite {
